@@ -158,14 +158,24 @@ func runLifeSeq(ctx context.Context, srv *sim.Server, seqNo int, calls []lcall, 
 			a.Close()
 			if di, derr := srv.Be.DB.FindDocInfoByKey(ctx, p.ID, key.Key(keys[call.d])); derr == nil && di != nil {
 				knownDocID[call.d] = di.ID.String()
-				// what the slot holds from now on is the instance of the failed attach: never attached
-				if old := sl.atts[call.d]; old != nil {
-					old.Close()
+				// if the failure left the "attaching" residue, what the slot holds from now on is the
+				// instance of the failed attach (never attached); a refusal that changed nothing (the
+				// document was attached already) leaves the slot's instance alone
+				residue := false
+				if ci, e := srv.Be.DB.FindClientInfoByRefKey(ctx, types.ClientRefKey{ProjectID: p.ID, ClientID: types.IDFromActorID(sl.c.ID)}); e == nil {
+					if dinfo, ok := ci.Documents[di.ID]; ok && dinfo.Status == database.DocumentAttaching {
+						residue = true
+					}
 				}
-				d, stop := sim.NewDoc(keys[call.d])
-				d.SetActor(sl.c.ID)
-				sl.atts[call.d] = sim.NewRawAtt(sl.c, d, di.ID.String(), stop)
-				sl.ever[call.d] = false
+				if residue {
+					if old := sl.atts[call.d]; old != nil {
+						old.Close()
+					}
+					d, stop := sim.NewDoc(keys[call.d])
+					d.SetActor(sl.c.ID)
+					sl.atts[call.d] = sim.NewRawAtt(sl.c, d, di.ID.String(), stop)
+					sl.ever[call.d] = false
+				}
 			}
 		case "atts": // attach again with the SAME Document instance (not a fresh one)
 			if sl == nil {
